@@ -182,3 +182,4 @@ MANIFEST = {
     'note': 'Trusted: refmodel.parse; seeding of the global RNGs.',
 }
 MANIFEST['text'] += (' ' + 'Shapes: unrelated earlier Generator run in the same process; 256..300 first-side agents with few second-side ones.')
+MANIFEST['text'] += (' ' + 'A shape with 1001-1300 first-side agents makes one second-side agent ranked by more than a thousand; when the strict reader refuses a file, second-side tokens that are not agent numbers are still reported.')
